@@ -20,6 +20,16 @@ REGRESSION = [
     new_prog(cap=[0], actors=[[op("acqt", 1, 0, 0), op("rel", 1)], [op("sleep", 0, 0, 1), op("acqt", 1, 0, 0)]]),
     new_prog(rec=[False], ncv=1, actors=[[op("lock", 1), op("cvwaitfor", 1, 1, 0), op("unlock", 1)],
                                          [op("lock", 1), op("unlock", 1)]]),
+    # C05: the timeout of a waiter that is not first in the queue must take exactly that waiter out
+    new_prog(cap=[0], actors=[[op("acq", 1)], [op("sleep", 0, 0, 1), op("acqt", 1, 0, 1)],
+                              [op("sleep", 0, 0, 3), op("rel", 1), op("rel", 1), op("acq", 1)]]),
+    new_prog(cap=[0], actors=[[op("acq", 1), op("rel", 1)], [op("sleep", 0, 0, 1), op("acqt", 1, 0, 1), op("sleep", 0, 0, 4), op("acqt", 1, 0, 1)],
+                              [op("sleep", 0, 0, 3), op("rel", 1), op("sleep", 0, 0, 1), op("rel", 1)]]),
+    # C06: same for a condition variable: the second waiter times out, the first is still there
+    new_prog(rec=[False], ncv=1, actors=[[op("lock", 1), op("cvwait", 1, 1), op("unlock", 1)],
+                                         [op("sleep", 0, 0, 1), op("lock", 1), op("cvwaitfor", 1, 1, 1), op("unlock", 1)],
+                                         [op("sleep", 0, 0, 3), op("lock", 1), op("sig", 1), op("sig", 1), op("unlock", 1)],
+                                         [op("sleep", 0, 0, 4), op("lock", 1), op("cvwaitfor", 1, 1, 2), op("unlock", 1)]]),
 ]
 
 
@@ -39,6 +49,13 @@ def small_scope(focus, quick):
         for cap in (0, 1):
             progs += list(K.enum_small(alpha, 2, 3 if not quick else 2, cap=[cap]))
             progs += list(K.enum_small(alpha[:4] if not quick else [alpha[0], alpha[1], alpha[3]], 3, 2, cap=[cap]))
+        for t in (1, 2):
+            for r in (1, 2, 3, 4):
+                progs.append(new_prog(cap=[0], actors=[[op("acq", 1)], [op("sleep", 0, 0, 1), op("acqt", 1, 0, t), op("rel", 1)],
+                                                       [op("sleep", 0, 0, r), op("rel", 1), op("rel", 1), op("acq", 1)]]))
+                progs.append(new_prog(cap=[0], actors=[[op("acqt", 1, 0, 5)], [op("sleep", 0, 0, 1), op("acqt", 1, 0, t)],
+                                                       [op("sleep", 0, 0, 1), op("acqt", 1, 0, t + 1)],
+                                                       [op("sleep", 0, 0, r), op("rel", 1), op("sleep", 0, 0, 1), op("rel", 1), op("rel", 1)]]))
     elif focus == "cv":
         # each actor: lock; <x>; unlock with x in wait / wait_for / signal / broadcast, preceded by an optional sleep
         bodies = []
@@ -164,10 +181,11 @@ def run(ctx, focus, n_random_quick, n_random_thorough, max_actors=4, max_ops=6, 
                           detail=json.dumps(K.prog_brief(progs[i])))
     ctx.cov["outcomes_compared"] = n_out
     # ---------------- T under the model checker: "every interleaving explored by the model checker" (C04, C05, C07, C08)
-    if focus in ("mutex", "sem", "bar", "comm"):
+    if focus in ("mutex", "sem", "bar", "comm", "cv"):
         import mcbind_common as M
-        MC_OPS = {"lock", "trylock", "unlock", "acq", "rel", "bar", "put", "get", "puta", "geta", "putd", "wait", "test"}
-        cand = [p for p in progs if len(p["actors"]) <= 3 and sum(len(a) for a in p["actors"]) <= 9 and K.shared_objects(p)
+        MC_OPS = {"lock", "trylock", "unlock", "acq", "rel", "bar", "put", "get", "puta", "geta", "putd", "wait", "test",
+                  "cvwait", "cvwaitfor", "sig", "bcast", "sleep"}
+        cand = [p for p in progs if len(p["actors"]) <= 3 and sum(len(a) for a in p["actors"]) <= (12 if focus == "cv" else 9) and K.shared_objects(p)
                 and all(o["op"] in MC_OPS for a in p["actors"] for o in a) and not any(p.get("perm", []))]
         ctx.rng.shuffle(cand)
         mcp = [dict(json.loads(json.dumps(p)), gran="mc", timed=False) for p in cand[: (5 if quick else 25)]]
